@@ -533,6 +533,19 @@ func (e *Env) structField(sv ssa.Value, idx int, depth int) (ssa.Value, *Env) {
 		if a, pe := e.actual(x); a != nil {
 			return pe.structField(a, idx, depth+1)
 		}
+	case *ssa.Extract:
+		// one of several results of an unexported helper (`item, rest := next(rest)`)
+		if call, ok := x.Tuple.(*ssa.Call); ok {
+			sc := call.Call.StaticCallee()
+			if sc == nil || len(sc.Blocks) == 0 || sc.Pkg == nil || !strings.HasPrefix(sc.Pkg.Pkg.Path(), modPath) || e.depth >= maxDepth || isExportedAPI(sc) {
+				return nil, nil
+			}
+			rets := returnsOf(sc)
+			if len(rets) != 1 || x.Index >= len(rets[0].Results) {
+				return nil, nil
+			}
+			return e.Sub(call, sc).structField(rets[0].Results[x.Index], idx, depth+1)
+		}
 	case *ssa.Call:
 		sc := x.Call.StaticCallee()
 		if sc == nil || len(sc.Blocks) == 0 || sc.Pkg == nil || !strings.HasPrefix(sc.Pkg.Pkg.Path(), modPath) || e.depth >= maxDepth {
@@ -1780,6 +1793,32 @@ func (e *Env) sliceInduction(phi *ssa.Phi) (ssa.Value, LE, bool) {
 		if sl, ok := ed.(*ssa.Slice); ok && sl.X == ssa.Value(phi) && sl.High == nil && sl.Max == nil && sl.Low != nil {
 			if k, ok := constInt(sl.Low); ok && k >= 0 {
 				latch, c = i, k
+			}
+		}
+		// the rest handed back by a helper that takes the head off: `item, rest = next(rest)` with next returning xs[c:]
+		var call *ssa.Call
+		idx := 0
+		switch x := ed.(type) {
+		case *ssa.Extract:
+			call, _ = x.Tuple.(*ssa.Call)
+			idx = x.Index
+		case *ssa.Call:
+			call = x
+		}
+		if call != nil && latch < 0 {
+			if sc := call.Call.StaticCallee(); sc != nil && len(sc.Blocks) > 0 && sc.Pkg != nil && strings.HasPrefix(sc.Pkg.Pkg.Path(), modPath) && e.depth < maxDepth {
+				rets := returnsOf(sc)
+				if len(rets) == 1 && idx < len(rets[0].Results) {
+					if sl, ok := rets[0].Results[idx].(*ssa.Slice); ok && sl.High == nil && sl.Max == nil && sl.Low != nil {
+						if par, isPar := sl.X.(*ssa.Parameter); isPar {
+							if k, ok := constInt(sl.Low); ok && k >= 0 {
+								if a, _ := e.Sub(call, sc).actual(par); a == ssa.Value(phi) {
+									latch, c = i, k
+								}
+							}
+						}
+					}
+				}
 			}
 		}
 	}
